@@ -26,11 +26,11 @@ Proof. intros. unfold d_msg. rewrite len_app, len_d_hdr. reflexivity. Qed.
 
 (* ---------- decode after encode ---------- *)
 Theorem all_decode_encode : forall st m h f, wf st m h f ->
-  exists bs, encode st m h f = Some bs /\ decode st m bs = Ok (decoded_form st bs h f).
+  exists bs, encode st m h f = Some bs /\ decode st m bs = Ok (decoded_hdr st bs h, f).
 Proof.
   intros st m h f [Hh Hf].
   destruct st.
-  - subst h. unfold decoded_form.
+  - subst h. unfold decoded_hdr.
     destruct m, f; try contradiction; try (destruct Hf as [Hf _]; discriminate Hf);
       cbn [encode decode]; eexists; (split; [reflexivity|]).
     + rewrite T_ch_decode_encode by auto. reflexivity.
@@ -42,7 +42,7 @@ Proof.
     + rewrite T_cv_decode_encode by auto. reflexivity.
     + rewrite T_ckx_decode_encode by auto. reflexivity.
     + destruct Hf as [Hf _]. rewrite T_fin_decode_encode by auto. reflexivity.
-  - unfold decoded_form.
+  - unfold decoded_hdr.
     destruct m, f; try contradiction; cbn [encode decode]; eexists; (split; [reflexivity|]).
     + rewrite D_ch_decode_encode by auto. cbn [rmap fst snd]. unfold D_ch_enc. rewrite len_d_msg.
       cbn [fst snd]. replace (12 + len (ch_body_enc true m) - 12) with (len (ch_body_enc true m)) by lia. reflexivity.
@@ -124,15 +124,4 @@ Proof.
   destruct st, m; try discriminate; cbn [decode] in H; apply rmap_ok in H as (a & Ha & Hb).
   - eapply T_creq_strict; eauto. - eapply T_ckx_strict; eauto. - eapply T_fin_strict; eauto.
   - eapply D_creq_strict; eauto. - eapply D_ckx_strict; eauto.
-Qed.
-
-(* decoded_form leaves the fields alone except for a dtlcp ClientHello with several supported
-   groups / signature algorithms *)
-Theorem decoded_form_fields : forall st bs h f,
-  (forall x, st = SD -> f = FCH x -> (length (ch_curves x) <= 1)%nat /\ (length (ch_sigalgs x) <= 1)%nat) ->
-  snd (decoded_form st bs h f) = f.
-Proof.
-  intros st bs h f H. unfold decoded_form. cbn [snd]. destruct st; [reflexivity|].
-  destruct f; try reflexivity. destruct (H m eq_refl eq_refl) as [H1 H2]. f_equal.
-  apply (ch_norm_single m H1 H2).
 Qed.
